@@ -2,13 +2,21 @@ use crate::engine::driver::{Ctx, Property};
 pub mod common;
 pub mod c01;
 pub mod c02;
+pub mod c04;
+pub mod c10;
+pub mod c11;
+pub mod c12;
 
 pub fn property(id: &str, ctx: &Ctx) -> Option<Property> {
     Some(match id {
         "C01" => c01::property(ctx),
         "C02" => c02::property(ctx),
+        "C04" => c04::property(ctx),
+        "C10" => c10::property(ctx),
+        "C11" => c11::property(ctx),
+        "C12" => c12::property(ctx),
         _ => return None,
     })
 }
 
-pub const ALL: &[&str] = &["C01", "C02"];
+pub const ALL: &[&str] = &["C01", "C02", "C04", "C10", "C11", "C12"];
